@@ -777,6 +777,24 @@ fn lean_opd_tokens(rng: &mut Rng, depth: u32, out: &mut Vec<String>) {
         out.push(crate::model::hex(rng.pick(BND).as_bytes()));
         return;
     }
+    if rng.chance(1, 8) {
+        if rng.chance(1, 2) {
+            out.push("s".into());
+        } else {
+            out.push("fs".into());
+            out.push(crate::model::hex(rng.pick(&["title", "body", "t", "tag"]).as_bytes()));
+        }
+        out.push(rng.below(3).to_string());
+        out.push(rng.below(3).to_string());
+        out.push(crate::model::hex(rng.pick(VOC).as_bytes()));
+        let n = rng.usize_below(4);
+        out.push(n.to_string());
+        for _ in 0..n {
+            out.push(rng.below(3).to_string());
+            out.push(crate::model::hex(rng.pick(VOC).as_bytes()));
+        }
+        return;
+    }
     const SFX: &[&str] = &["*", "s0", "s1", "s2", "s10", "s007", "s4294967295", "-"];
     if rng.chance(1, 6) {
         if rng.chance(1, 2) {
